@@ -6,6 +6,7 @@ import Driver.Refs
 import Driver.AssembleE
 import Driver.AssembleH
 import Driver.AssembleM
+import Driver.AssembleMH
 import Driver.Heat
 import Driver.Magnetics
 import Driver.PostInt
@@ -24,6 +25,7 @@ def main (args : List String) : IO UInt32 := do
   match args with
   | "csparse" :: rest => Driver.CSparse.run (rest.headD "float") stdin stdout; return 0
   | "sparse" :: rest => Driver.Sparse.run (rest.headD "float") stdin stdout; return 0
+  | "assemble-mh" :: _ => Driver.AssembleMH.run stdin stdout; return 0
   | "assemble-m" :: _ => Driver.AssembleM.run stdin stdout; return 0
   | "assemble-h" :: _ => Driver.AssembleH.run stdin stdout; return 0
   | "assemble-e" :: _ => Driver.AssembleE.run stdin stdout; return 0
